@@ -1,7 +1,7 @@
 (* C11 — column and table slices keep their structural invariants.  Statements only; proofs in
    CsFacts.v and SliceFacts.v.  The payload type V of a caller-built slice is the identity of a
    value array (a handle): "the very same array" is equality of payloads. *)
-From Sbdf Require Import Imp ImpCall Gen.Prog ImpBase ImpFactsCap ImpFactsCells ImpFactsSlice ImpFactsRelease.
+From Sbdf Require Import Imp ImpCall Gen.Prog ImpBase ImpFactsCap ImpFactsCells ImpFactsGrow ImpFactsSlice ImpFactsRelease.
 From Coq Require Import List.
 From Sbdf Require Import Slice CsFacts SliceFacts MdFacts.
 
@@ -112,3 +112,52 @@ Theorem C11_source_ts_create : forall k sx m h hb,
           Imp.lookup "*out"%string (vars fin) = Some (VCell (List.length h) 0)).
 Proof. exact ts_create_source. Qed.
 Print Assumptions C11_source_ts_create.
+
+(* ---- sbdf_ts_add from the source (with sbdf_calculate_array_capacity and sbdf_alloc: malloc for an empty slot,
+   realloc otherwise - the old array released, its cells carried over).  n = the number of columns so far.
+   - room left (capacity(n) <> n): the column slice goes into slot n, the count becomes n + 1, every other block and
+     every other slot is as before;
+   - first column of a fresh slice, or a full array (capacity(n) = n): a new array of capacity(n + 1) slots holds the
+     columns so far in order, the new one in slot n, unspecified slack behind; the old array (if any) is released;
+     when the allocation fails (k = 0) the call reports OUT_OF_MEMORY and the heap is exactly as before.
+   So a table slice lists exactly the column slices added to it, in order - for every heap, count and oracle. *)
+Theorem C11_source_ts_add_room : forall k sx m h tb meta n cols owned colb ccells cb old, ts_block h tb meta n cols owned -> 0 <= n <= 715827881 ->
+  array_capacity n <> n -> as_ptr cols = VCell colb 0 -> nth_error h colb = Some (Some ccells) -> nth_error ccells (Z.to_nat n) = Some old -> tb <> colb ->
+  exists h2 ccells', set_nth_v (Z.to_nat n) (VCell cb 0) ccells = Some ccells' /\
+    nth_error h2 tb = Some (Some [meta; VInt (n + 1); cols; VInt owned]) /\ nth_error h2 colb = Some (Some ccells') /\
+    (forall c, c <> tb -> c <> colb -> nth_error h2 c = nth_error h c) /\
+  exists f0, forall f, (f0 <= f)%nat -> exists fin,
+    callC prog_env f prog_sbdf_ts_add [VCell cb 0; VCell tb 0] m k sx h = OReturn (VInt SBDF_OK) fin /\ inb fin = m /\ Imp.lookup cells_var (vars fin) = Some (VHeap h2).
+Proof. exact ts_add_room_source. Qed.
+Print Assumptions C11_source_ts_add_room.
+
+Theorem C11_source_ts_add_first : forall k sx m h tb meta n cols owned cb, ts_block h tb meta n cols owned -> 0 <= n <= 715827881 ->
+  array_capacity n = n -> array_capacity (n + 1) * 8 <= int_max -> as_ptr cols = VNull ->
+  let L := List.length h in let c := Z.to_nat (array_capacity (n + 1)) in
+  exists h2 blk', set_nth_v (Z.to_nat n) (VCell cb 0) (repeat VUndef c) = Some blk' /\
+    nth_error h2 tb = Some (Some [meta; VInt (n + 1); VCell L 0; VInt owned]) /\ nth_error h2 L = Some (Some blk') /\
+    (forall x, x <> tb -> x <> L -> nth_error h2 x = nth_error (h ++ [Some (repeat VUndef c)]) x) /\
+  exists f0, forall f, (f0 <= f)%nat -> exists fin,
+    callC prog_env f prog_sbdf_ts_add [VCell cb 0; VCell tb 0] m k sx h =
+      OReturn (VInt (if k =? 0 then SBDF_ERROR_OUT_OF_MEMORY else SBDF_OK)) fin /\ inb fin = m /\
+    Imp.lookup cells_var (vars fin) = Some (VHeap (if k =? 0 then h else h2)).
+Proof. exact ts_add_first_source. Qed.
+Print Assumptions C11_source_ts_add_first.
+
+Theorem C11_source_ts_add_regrow : forall k sx m h tb meta n cols owned colb ccells cb, ts_block h tb meta n cols owned -> 0 <= n <= 715827881 ->
+  array_capacity n = n -> array_capacity (n + 1) * 8 <= int_max -> as_ptr cols = VCell colb 0 -> nth_error h colb = Some (Some ccells) ->
+  zlen ccells = n -> tb <> colb ->
+  let L := List.length h in let c := Z.to_nat (array_capacity (n + 1)) in
+  exists h2, nth_error h2 tb = Some (Some [meta; VInt (n + 1); VCell L 0; VInt owned]) /\
+    nth_error h2 L = Some (Some (ccells ++ VCell cb 0 :: repeat VUndef (c - S (List.length ccells)))) /\ nth_error h2 colb = Some None /\
+    (forall x, x <> tb -> x <> L -> x <> colb -> (x < L)%nat -> nth_error h2 x = nth_error h x) /\
+  exists f0, forall f, (f0 <= f)%nat -> exists fin,
+    callC prog_env f prog_sbdf_ts_add [VCell cb 0; VCell tb 0] m k sx h =
+      OReturn (VInt (if k =? 0 then SBDF_ERROR_OUT_OF_MEMORY else SBDF_OK)) fin /\ inb fin = m /\
+    Imp.lookup cells_var (vars fin) = Some (VHeap (if k =? 0 then h else h2)).
+Proof. exact ts_add_regrow_source. Qed.
+Print Assumptions C11_source_ts_add_regrow.
+
+(* the capacity rule makes the cases exhaustive and the first numbers concrete *)
+Example C11_capacity_values : map array_capacity [0; 1; 2; 3; 4; 5; 7; 8; 11; 12] = [0; 1; 2; 4; 4; 7; 7; 11; 11; 17].
+Proof. vm_compute. reflexivity. Qed.
